@@ -352,6 +352,7 @@ func c19kGen(rng *rand.Rand, k int) c19kScn {
 		for i := 0; i < 3; i++ {
 			add(1000+rng.IntN(900), c17Sign(rng)*c17LogU(rng, 1e4, 4e7))
 		}
+		add(700+rng.IntN(600), 0) // a measured offset of exactly zero while the previous slew is still under way
 		return s
 	}
 	s := c19kScn{Mode: "driver"}
@@ -379,7 +380,12 @@ func c19kGen(rng *rand.Rand, k int) c19kScn {
 			}
 		}
 		s.Ops = append(s.Ops, op)
+		if op.Kind == "Adjust" && rng.IntN(4) == 0 {
+			// nothing left to slew, same base frequency, while the slew just asked for is still under way
+			s.Ops = append(s.Ops, c19kOp{Kind: "Adjust", BeforeMs: []int{0, 200, 600}[rng.IntN(3)], X: 0, D: int64(1+rng.IntN(2)) * int64(time.Second), F: op.F})
+		}
 	}
+	n = len(s.Ops)
 	if s.Ops[n-1].Kind != "Adjust" { // end on an adjustment that has to expire by itself
 		s.Ops = append(s.Ops, c19kOp{Kind: "Adjust", BeforeMs: 200, X: 250000, D: int64(time.Second), F: 7.7e-5})
 	}
